@@ -538,7 +538,7 @@ pub const GARBAGE: &[&str] = &[
     // with a neighbouring `||` when no blank separates them, so only interior pipes are used)
     "x|y", "1|2", "a|b|c", ">=1.2.3|x", "~1.2|x", "^1.2|x", "2|x", "1.2.3|foo",
 ];
-pub const PRE_TAGS: &[&str] = &["alpha", "0", "rc.1", "beta.2", "a.b", "1", "alpha.0", "-", "x", "0.0", "b-c", "DEV", "RC.V2", "X", "Alpha", "0.5", "0.alpha", "v1", "V", "100000000", "1e5"];
+pub const PRE_TAGS: &[&str] = &["alpha", "0", "rc.1", "beta.2", "a.b", "1", "alpha.0", "-", "x", "0.0", "b-c", "DEV", "RC.V2", "X", "Alpha", "0.5", "0.alpha", "v1", "V", "100000000", "1e5", "dev", "rc.v"];
 
 pub fn wild(r: &mut Rng) -> Xr {
     Xr::Wild(*r.pick(&['x', 'X', '*']))
